@@ -6,7 +6,11 @@ The oracle works on the abstract family of node sets only: degree = number of
 distinct filtered hyperedges containing the node, components = union-find
 classes over the filtered hyperedges.  Every wrapper is asked through the
 method *and* the module-level function under every order/size filter
-(sizes 1..6, size 6 is always absent) and without filter.
+(sizes 1..6, size 6 is always absent) and without filter.  Afterwards the same
+object is changed once (a hyperedge removed or inserted, an isolated node added
+or removed), the abstract family follows, and the wrappers are asked again
+without filter and under one size/order filter: an answer memoised by the
+library must not survive the change.
 """
 
 from collections import Counter
@@ -25,7 +29,17 @@ ASSUMPTIONS = [
     "a filter is none, size=k or order=k-1 for k in 1..6; all 13 are asked in every case, always by "
     "keyword (positional order/size arguments differ between methods and functions and are not used)",
     "largest_component: any component of maximum size is accepted",
-    "hypergraphs have at least one node (largest component / connectedness of nothing is unspecified)",
+    "hypergraphs have at least one node (largest component / connectedness of nothing is unspecified); "
+    "a hypergraph without any hyperedge (isolated nodes only) is inside the domain",
+    "the in-check mutation (remove_edge / add_edge / add_node / remove_node of a node without hyperedge) "
+    "is trusted to change the content as documented (C01-C04 check that); only the answers of the "
+    "degree / component wrappers after it are asserted",
+    "container histories: remove_node(n) takes the records containing n away; "
+    "remove_node(Z, keep_edges=True) only in the form 'e+{Z} inserted at a time/layer where e is "
+    "absent, unweighted, no metadata' (an emptied record or a merge into an existing record is "
+    "unspecified and never generated; never on DirectedHypergraph); weighted constructor batches "
+    "list pairwise different node sets (a weighted batch repeating a node set is refused by the "
+    "classes, outside C08)",
     "listing order of components and of nodes inside a component is never asserted; a component "
     "may be returned as any iterable of distinct nodes",
     "directed hyperedges have disjoint non-empty source and target and are filtered on "
@@ -59,24 +73,55 @@ def _labels(ns, U):
 # building
 
 
+WARM_FILTERS = ({}, {"size": 2}, {"order": 2}, {"size": 1})
+
+
 def _warmup(h):
-    """Ask every wrapper once (no filter and size=2); results are discarded."""
+    """Ask every query family the clauses assert once -- through the module-level function and
+    through the method -- without filter, under size=2, order=2 and size=1; results discarded."""
     import importlib
     cc = importlib.import_module("hypergraphx.utils.cc")
     deg = importlib.import_module("hypergraphx.measures.degree")
-    for kw in ({}, {"size": 2}):
+    for kw in WARM_FILTERS:
         deg.degree_sequence(h, **kw)
+        h.degree_sequence(**kw)
         deg.degree_distribution(h, **kw)
-        cc.connected_components(h, **kw)
-        cc.num_connected_components(h, **kw)
-        cc.largest_component(h, **kw)
-        cc.largest_component_size(h, **kw)
-        cc.isolated_nodes(h, **kw)
-        cc.is_connected(h, **kw)
+        h.degree_distribution(**kw)
+        for name in ("connected_components", "num_connected_components", "largest_component",
+                     "largest_component_size", "isolated_nodes", "is_connected"):
+            getattr(cc, name)(h, **kw)
+            getattr(h, name)(**kw)
         for n in h.get_nodes():
             cc.node_connected_component(h, n, **kw)
+            h.node_connected_component(n, **kw)
             cc.is_isolated(h, n, **kw)
+            h.is_isolated(n, **kw)
+            deg.degree(h, n, **kw)
             h.degree(n, **kw)
+
+
+def _warmup_container(h):
+    """Degrees of a Directed/Temporal/Multiplex object asked once; results discarded."""
+    import importlib
+    deg = importlib.import_module("hypergraphx.measures.degree")
+    for kw in WARM_FILTERS:
+        deg.degree_sequence(h, **kw)
+        h.degree_sequence(**kw)
+        deg.degree_distribution(h, **kw)
+        if hasattr(h, "degree_distribution"):
+            h.degree_distribution(**kw)
+        for n in h.get_nodes():
+            deg.degree(h, n, **kw)
+            h.degree(n, **kw)
+
+
+def _spare(case):
+    """A label of the kind of the universe that is not in the universe (None if there is none)."""
+    U = case["universe"]["labels"]
+    kind = case["universe"]["kind"]
+    pool = {"range": list(range(len(U), len(U) + 3)), "ints": S.INT_POOL, "strs": S.STR_POOL,
+            "floats": S.FLOAT_POOL + [9.5]}[kind]
+    return next((x for x in pool if x not in U), None)
 
 
 @with_history(warmup=_warmup)
@@ -126,10 +171,7 @@ def build_hypergraph(case):
     # e + {Z} is inserted next to e, then Z is removed and the shrunk hyperedge merges into e
     shr = case.get("shrunk") or []
     if shr and recs:
-        kind = case["universe"]["kind"]
-        pool = list(range(len(U), len(U) + 3)) if kind == "range" else (
-            S.INT_POOL if kind == "ints" else S.STR_POOL)
-        Z = next((x for x in pool if x not in U), None)
+        Z = _spare(case)
         if Z is not None:
             for p in shr:
                 e = recs[p % len(recs)]
@@ -211,24 +253,97 @@ CC = "hypergraphx.utils.cc"
 DEG = "hypergraphx.measures.degree"
 
 
+def _same_nodes(h, nodes, trace):
+    got_nodes = Counter(h.get_nodes())
+    require(got_nodes == Counter(nodes),
+            lambda: "get_nodes() = %r, the history %r produces nodes %r"
+            % (dict(got_nodes), trace, sorted(nodes)), key="source-content")
+
+
 def _prep(case, ctx):
     h, nodes, E, trace = build_hypergraph(case)
     ctx.trace = trace
     nt = _classify(case, ctx, nodes, E)
-    got_nodes = Counter(h.get_nodes())
-    require(got_nodes == Counter(nodes),
-            lambda: "get_nodes() = %r, the history %r produces nodes %r"
-            % (dict(got_nodes), trace, nodes), key="source-content")
+    if not E:
+        ctx.label("no_hyperedges")
+    _same_nodes(h, nodes, trace)
     return h, nodes, E, trace, nt
+
+
+def _mutate(h, case, nodes, E, trace, ctx):
+    """ONE drawn change of the object that was just queried; the abstract family follows.
+    Returns (nodes, hyperedges, filters to ask again) or None (case without a mutation part)."""
+    m = case.get("mutate")
+    if not m:
+        return None
+    U = case["universe"]["labels"]
+    wkw = {"weight": 3} if case["weighted"] else {}
+    nodes, E = set(nodes), set(E)
+    covered = set()
+    for e in E:
+        covered |= e
+    lonely = sorted(nodes - covered)
+    op = m["op"]
+    z = _spare(case)
+    if op == "remove_node" and not (lonely and len(nodes) >= 2):
+        op = "add_node"
+    if op == "add_node" and (z is None or z in nodes):
+        op = "toggle"
+    if op == "remove_edge" and not E:
+        op = "toggle"
+    k = m["k"]
+    if op == "add_node":
+        h.add_node(z)
+        nodes.add(z)
+        step = "add_node(%r)" % (z,)
+    elif op == "remove_node":
+        n = lonely[m["pick"] % len(lonely)]
+        h.remove_node(n)
+        nodes.discard(n)
+        step = "remove_node(%r)" % (n,)
+    else:
+        if op == "remove_edge":
+            es = sorted(E, key=sorted)
+            e = permuted(sorted(es[m["pick"] % len(es)]), m["pick"])
+        else:
+            e = _labels(m["ns"], U)
+        k = len(e)
+        if frozenset(e) in E:
+            h.remove_edge(tuple(e))
+            E.discard(frozenset(e))
+            op, step = "remove_edge", "remove_edge(%r)" % (tuple(e),)
+        else:
+            h.add_edge(tuple(e), **wkw)
+            E.add(frozenset(e))
+            nodes |= set(e)
+            op, step = "add_edge", "add_edge(%r)" % (tuple(e),)
+    ctx.label("mutate:" + op)
+    trace.append("then (after all queries were asked once): " + step)
+    nodes = sorted(nodes)
+    _same_nodes(h, nodes, trace)
+    return nodes, E, [None, ("order", k - 1) if m["as_order"] else ("size", k)]
+
+
+def _clause(assert_fn, rejections):
+    """check(case, ctx): assert under all 13 filters, the order+size pair, then change the object
+    once and assert again without filter and under one filter."""
+    def check(case, ctx):
+        h, nodes, E, trace, nt = _prep(case, ctx)
+        assert_fn(h, nodes, E, trace, FILTERS)
+        rejections(h, nodes)
+        after = _mutate(h, case, nodes, E, trace, ctx)
+        if after is not None:
+            assert_fn(h, after[0], after[1], trace, after[2])
+        ctx.nontrivial(nt)
+    return check
 
 
 # ---------------------------------------------------------------------------
 # clauses on Hypergraph
 
 
-def check_degree(case, ctx):
-    h, nodes, E, trace, nt = _prep(case, ctx)
-    for f in FILTERS:
+def _assert_degree(h, nodes, E, trace, filters):
+    for f in filters:
         FE = _filtered(E, f)
         exp = {n: sum(1 for e in FE if n in e) for n in nodes}
         total = sum(len(e) for e in FE)
@@ -250,12 +365,17 @@ def check_degree(case, ctx):
             got = dict(fn(**fkw(f)))
             require(got == hist, lambda: "%s(%s) = %r, expected %r (degrees %r, history %r)"
                     % (what, fdesc(f), got, hist, exp, trace), key="degree_distribution")
+
+
+def _reject_degree(h, nodes):
     for name in ("degree_sequence", "degree_distribution"):
         for what, fn in _variants(h, name, DEG):
             _must_raise_both(fn, what)
     for what, fn in _variants(h, "degree", DEG):
         _must_raise_both(lambda **kw: fn(nodes[0], **kw), what)
-    ctx.nontrivial(nt)
+
+
+check_degree = _clause(_assert_degree, _reject_degree)
 
 
 def _show(FE):
@@ -268,9 +388,8 @@ def _partition_msg(what, f, got, exp, FE, trace):
                sorted(sorted(c) for c in exp), trace))
 
 
-def check_components(case, ctx):
-    h, nodes, E, trace, nt = _prep(case, ctx)
-    for f in FILTERS:
+def _assert_components(h, nodes, E, trace, filters):
+    for f in filters:
         FE = _filtered(E, f)
         exp = Counter(components(nodes, FE))
         for what, fn in _variants(h, "connected_components", CC):
@@ -283,15 +402,19 @@ def check_components(case, ctx):
                     lambda: "%s(%s) = %r with %d component(s) %r (history %r)"
                     % (what, fdesc(f), got, len(exp), sorted(sorted(c) for c in exp), trace),
                     key="is_connected")
+
+
+def _reject_components(h, nodes):
     for name in ("connected_components", "is_connected"):
         for what, fn in _variants(h, name, CC):
             _must_raise_both(fn, what)
-    ctx.nontrivial(nt)
 
 
-def check_node_component(case, ctx):
-    h, nodes, E, trace, nt = _prep(case, ctx)
-    for f in FILTERS:
+check_components = _clause(_assert_components, _reject_components)
+
+
+def _assert_node_component(h, nodes, E, trace, filters):
+    for f in filters:
         FE = _filtered(E, f)
         comps = components(nodes, FE)
         of = {n: c for c in comps for n in c}
@@ -302,14 +425,18 @@ def check_node_component(case, ctx):
                         "hyperedges %s is %r (history %r)"
                         % (what, n, ", " + fdesc(f) if f else "", sorted(got), _show(FE),
                            sorted(of[n]), trace), key="node_connected_component")
+
+
+def _reject_node_component(h, nodes):
     for what, fn in _variants(h, "node_connected_component", CC):
         _must_raise_both(lambda **kw: fn(nodes[0], **kw), what)
-    ctx.nontrivial(nt)
 
 
-def check_num_components(case, ctx):
-    h, nodes, E, trace, nt = _prep(case, ctx)
-    for f in FILTERS:
+check_node_component = _clause(_assert_node_component, _reject_node_component)
+
+
+def _assert_num_components(h, nodes, E, trace, filters):
+    for f in filters:
         FE = _filtered(E, f)
         exp = len(components(nodes, FE))
         for what, fn in _variants(h, "num_connected_components", CC):
@@ -317,14 +444,18 @@ def check_num_components(case, ctx):
             require(got == exp, lambda: "%s(%s) = %r, the hyperedges %s split the %d nodes into %d "
                     "classes (history %r)" % (what, fdesc(f), got, _show(FE), len(nodes), exp, trace),
                     key="num_connected_components")
+
+
+def _reject_num_components(h, nodes):
     for what, fn in _variants(h, "num_connected_components", CC):
         _must_raise_both(fn, what)
-    ctx.nontrivial(nt)
 
 
-def check_largest(case, ctx):
-    h, nodes, E, trace, nt = _prep(case, ctx)
-    for f in FILTERS:
+check_num_components = _clause(_assert_num_components, _reject_num_components)
+
+
+def _assert_largest(h, nodes, E, trace, filters):
+    for f in filters:
         FE = _filtered(E, f)
         comps = components(nodes, FE)
         top = max(len(c) for c in comps)
@@ -340,15 +471,19 @@ def check_largest(case, ctx):
             require(got == top, lambda: "%s(%s) = %r, the largest class under the hyperedges %s "
                     "has %d nodes (history %r)" % (what, fdesc(f), got, _show(FE), top, trace),
                     key="largest_component_size")
+
+
+def _reject_largest(h, nodes):
     for name in ("largest_component", "largest_component_size"):
         for what, fn in _variants(h, name, CC):
             _must_raise_both(fn, what)
-    ctx.nontrivial(nt)
 
 
-def check_isolated(case, ctx):
-    h, nodes, E, trace, nt = _prep(case, ctx)
-    for f in FILTERS:
+check_largest = _clause(_assert_largest, _reject_largest)
+
+
+def _assert_isolated(h, nodes, E, trace, filters):
+    for f in filters:
         FE = _filtered(E, f)
         comps = components(nodes, FE)
         # isolated = alone in its class = in no filtered hyperedge of size >= 2
@@ -366,11 +501,16 @@ def check_isolated(case, ctx):
                 require(got == (n in exp), lambda: "%s(%r%s) = %r, expected %r (hyperedges %s, "
                         "history %r)" % (what, n, ", " + fdesc(f) if f else "", got, n in exp,
                                          _show(FE), trace), key="is_isolated")
+
+
+def _reject_isolated(h, nodes):
     for what, fn in _variants(h, "isolated_nodes", CC):
         _must_raise_both(fn, what)
     for what, fn in _variants(h, "is_isolated", CC):
         _must_raise_both(lambda **kw: fn(nodes[0], **kw), what)
-    ctx.nontrivial(nt)
+
+
+check_isolated = _clause(_assert_isolated, _reject_isolated)
 
 
 # ---------------------------------------------------------------------------
@@ -379,9 +519,36 @@ def check_isolated(case, ctx):
 LAYERS = ["L1", "l2", "A"]
 
 
-@with_history
+def _resolve(kind, spec, U):
+    """spec -> (record key, add_edge arguments, node frozenset) or None (not a directed pair)."""
+    labs = _labels(spec["ns"], U)
+    if kind == "directed":
+        if len(labs) < 2:
+            return None
+        cut = 1 + spec["x"] % (len(labs) - 1)
+        s, t = labs[:cut], labs[cut:]
+        if spec["flip"]:
+            s, t = t, s
+        return (frozenset(s), frozenset(t)), ((tuple(s), tuple(t)),), frozenset(labs)
+    if kind == "temporal":
+        t = spec["x"] % 5
+        return (t, frozenset(labs)), (tuple(labs), t), frozenset(labs)
+    layer = LAYERS[spec["x"] % len(LAYERS)]
+    return (frozenset(labs), layer), (tuple(labs), layer), frozenset(labs)
+
+
+def _remove_record(h, kind, args):
+    if kind == "directed":
+        h.remove_edge(args[0])
+    elif kind == "temporal":
+        h.remove_edge(args[0], args[1])
+    else:
+        h.remove_edge((args[0], args[1]))
+
+
+@with_history(warmup=_warmup_container)
 def build_container(case):
-    """Returns (object, nodes, list of (node frozenset) one per record, trace, class name)."""
+    """Returns (object, nodes, {record key: node frozenset}, trace)."""
     from hypergraphx import DirectedHypergraph, MultiplexHypergraph, TemporalHypergraph
     U = case["universe"]["labels"]
     kind = case["kind"]
@@ -389,53 +556,88 @@ def build_container(case):
     wkw = {"weight": 2} if weighted else {}
     records = {}   # record key -> frozenset of nodes
     trace = []
-    if kind == "directed":
-        h = DirectedHypergraph(weighted=weighted)
-    elif kind == "temporal":
-        h = TemporalHypergraph(weighted=weighted)
-    else:
-        h = MultiplexHypergraph(weighted=weighted)
     nodes = set()
+    specs = [r for r in (_resolve(kind, spec, U) for spec in case["edges"]) if r is not None]
+    ctor = case.get("ctor", 0) if kind != "directed" else 0
+    batch = []
+    if ctor:
+        # constructor path: edge_list with time_list / edge_layer (1) or embedded pairs (2).
+        # weighted batches list pairwise different node sets (see ASSUMPTIONS)
+        seen = set()
+        rest = []
+        for r in specs:
+            if weighted and r[2] in seen:
+                rest.append(r)
+            else:
+                seen.add(r[2])
+                batch.append(r)
+        specs = rest
+    cls = {"directed": DirectedHypergraph, "temporal": TemporalHypergraph,
+           "multiplex": MultiplexHypergraph}[kind]
+    if batch:
+        es = [r[1][0] for r in batch]
+        xs = [r[1][1] for r in batch]
+        kw = {"weighted": weighted}
+        if weighted:
+            kw["weights"] = [(3 * i) % 7 + 1 for i in range(len(batch))]
+        if ctor == 1:
+            kw["edge_list"] = es
+            kw["time_list" if kind == "temporal" else "edge_layer"] = xs
+        elif kind == "temporal":
+            kw["edge_list"] = [(x, e) for e, x in zip(es, xs)]
+        else:
+            kw["edge_list"] = [(e, x) for e, x in zip(es, xs)]
+        h = cls(**kw)
+        trace.append("%s(%r)" % (cls.__name__, kw))
+        for key, args, ns in batch:
+            records[key] = ns
+            nodes |= ns
+    else:
+        h = cls(weighted=weighted)
+        trace.append("%s(weighted=%r)" % (cls.__name__, weighted))
 
-    def resolve(spec):
-        labs = _labels(spec["ns"], U)
-        if kind == "directed":
-            if len(labs) < 2:
-                return None
-            cut = 1 + spec["x"] % (len(labs) - 1)
-            s, t = labs[:cut], labs[cut:]
-            if spec["flip"]:
-                s, t = t, s
-            return (frozenset(s), frozenset(t)), ((tuple(s), tuple(t)),), frozenset(labs)
-        if kind == "temporal":
-            t = spec["x"] % 5
-            return (t, frozenset(labs)), (tuple(labs), t), frozenset(labs)
-        layer = LAYERS[spec["x"] % len(LAYERS)]
-        return (frozenset(labs), layer), (tuple(labs), layer), frozenset(labs)
-
-    for spec in case["edges"]:
-        r = resolve(spec)
-        if r is None:
-            continue
-        key, args, ns = r
+    for key, args, ns in specs:
         h.add_edge(*args, **wkw)      # a repeated record is still one record
         records[key] = ns
         nodes |= ns
         trace.append("add_edge%r" % (args,))
     for spec in case["removed"]:
-        r = resolve(spec)
+        r = _resolve(kind, spec, U)
         if r is None or r[0] in records:
             continue
         key, args, ns = r
         h.add_edge(*args, **wkw)
-        if kind == "directed":
-            h.remove_edge(args[0])
-        elif kind == "temporal":
-            h.remove_edge(args[0], args[1])
-        else:
-            h.remove_edge((args[0], args[1]))
+        _remove_record(h, kind, args)
         nodes |= ns
         trace.append("add_edge+remove_edge%r" % (args,))
+    # records that reach their node set through remove_node(Z, keep_edges=True): e+{Z} is
+    # inserted at a time / layer where e is absent (safe form only, see ASSUMPTIONS)
+    Z = _spare(case)
+    if kind != "directed" and not weighted and Z is not None:
+        grown = False
+        for spec in case.get("shrunk") or []:
+            key, args, ns = _resolve(kind, spec, U)
+            if key in records:
+                continue
+            h.add_edge(args[0] + (Z,), args[1])
+            trace.append("add_edge%r" % ((args[0] + (Z,), args[1]),))
+            records[key] = ns
+            nodes |= ns
+            grown = True
+        if grown:
+            h.remove_node(Z, keep_edges=True)
+            trace.append("remove_node(%r, keep_edges=True)" % (Z,))
+    # node removals take the incident records away
+    for i in case.get("dropped") or []:
+        n = U[i % len(U)]
+        if n not in nodes or (records and all(n in ns for ns in records.values())):
+            continue      # (a removal that would leave no record at all is skipped)
+        h.remove_node(n)
+        nodes.discard(n)
+        gone = [k for k, ns in records.items() if n in ns]
+        for k in gone:
+            del records[k]
+        trace.append("remove_node(%r)  [takes %d record(s) away]" % (n, len(gone)))
     for i in case["isolated"]:
         n = U[i % len(U)]
         h.add_node(n)
@@ -444,26 +646,10 @@ def build_container(case):
     return h, sorted(nodes), records, trace
 
 
-def check_containers(case, ctx):
+def _assert_container_degrees(h, kind, nodes, R, trace, filters):
     import hypergraphx.measures.degree as D
-    h, nodes, records, trace = build_container(case)
-    ctx.trace = trace
-    kind = case["kind"]
     cname = type(h).__name__
-    ctx.label("kind:" + kind, "labels:" + case["universe"]["kind"])
-    got_nodes = Counter(h.get_nodes())
-    require(got_nodes == Counter(nodes),
-            lambda: "%s.get_nodes() = %r, the history %r produces nodes %r"
-            % (cname, dict(got_nodes), trace, nodes), key="source-content")
-    if not nodes:
-        return
-    R = list(records.values())
-    sizes = {len(ns) for ns in R}
-    repeated_sets = len(set(R)) < len(R)
-    if repeated_sets:
-        ctx.label("same-node-set-in-several-records")
-    ctx.label("sizes:%s" % ("none" if not sizes else "uniform" if len(sizes) == 1 else "mixed"))
-    for f in FILTERS:
+    for f in filters:
         k = fsize(f)
         FR = [ns for ns in R if k is None or len(ns) == k]
         exp = {n: sum(1 for ns in FR if n in ns) for n in nodes}
@@ -496,10 +682,89 @@ def check_containers(case, ctx):
             require(got == hist, lambda: "%s(%s) = %r, expected %r (degrees %r, history %r)"
                     % (what, fdesc(f), got, hist, exp, trace),
                     key="degree_distribution:" + kind)
+
+
+def _mutate_container(h, case, nodes, records, trace, ctx):
+    """ONE drawn change after the degrees were asked: a record removed or a new one inserted
+    (a drawn spec that is present is removed, an absent one inserted)."""
+    m = case.get("mutate")
+    if not m:
+        return None
+    kind = case["kind"]
+    U = case["universe"]["labels"]
+    nodes, records = set(nodes), dict(records)
+    r = None
+    if m["op"] == "remove_edge" and records:
+        keys = sorted(records, key=lambda k: tuple(tuple(sorted(x)) if isinstance(x, frozenset)
+                                                   else x for x in k))
+        key = keys[m["pick"] % len(keys)]
+        ns = records[key]
+        if kind == "directed":
+            args = ((tuple(sorted(key[0])), tuple(sorted(key[1]))),)
+        elif kind == "temporal":
+            args = (tuple(sorted(key[1])), key[0])
+        else:
+            args = (tuple(sorted(key[0])), key[1])
+        r = key, args, ns
+    else:
+        r = _resolve(kind, m["spec"], U)
+    if r is None:
+        ctx.label("mutate:none")
+        return None
+    key, args, ns = r
+    if key in records:
+        _remove_record(h, kind, args)
+        del records[key]
+        ctx.label("mutate:remove_edge")
+        trace.append("then (after all queries were asked once): remove_edge%r" % (args,))
+    else:
+        h.add_edge(*args, **({"weight": 3} if case["weighted"] else {}))
+        records[key] = ns
+        nodes |= ns
+        ctx.label("mutate:add_edge")
+        trace.append("then (after all queries were asked once): add_edge%r" % (args,))
+    k = len(ns)
+    return sorted(nodes), records, [None, ("order", k - 1) if m["as_order"] else ("size", k)]
+
+
+def check_containers(case, ctx):
+    import hypergraphx.measures.degree as D
+    h, nodes, records, trace = build_container(case)
+    ctx.trace = trace
+    kind = case["kind"]
+    cname = type(h).__name__
+    ctx.label("kind:" + kind, "labels:" + case["universe"]["kind"])
+    if any(t.startswith(cname + "(") and "edge_list" in t for t in trace):
+        ctx.label("constructor-batch")
+    if any("keep_edges=True" in t for t in trace):
+        ctx.label("record-shrunk-by-remove_node")
+    if any("record(s) away" in t and "[takes 0" not in t for t in trace):
+        ctx.label("records-removed-with-node")
+
+    def same_nodes(nodes):
+        got_nodes = Counter(h.get_nodes())
+        require(got_nodes == Counter(nodes),
+                lambda: "%s.get_nodes() = %r, the history %r produces nodes %r"
+                % (cname, dict(got_nodes), trace, nodes), key="source-content")
+
+    same_nodes(nodes)
+    if not nodes:
+        return
+    R = list(records.values())
+    sizes = {len(ns) for ns in R}
+    repeated_sets = len(set(R)) < len(R)
+    if repeated_sets:
+        ctx.label("same-node-set-in-several-records")
+    ctx.label("sizes:%s" % ("none" if not sizes else "uniform" if len(sizes) == 1 else "mixed"))
+    _assert_container_degrees(h, kind, nodes, R, trace, FILTERS)
     _must_raise_both(lambda **kw: h.degree(nodes[0], **kw), "%s.degree" % cname)
     _must_raise_both(lambda **kw: h.degree_sequence(**kw), "%s.degree_sequence" % cname)
     _must_raise_both(lambda **kw: D.degree_distribution(h, **kw),
                      "measures.degree.degree_distribution")
+    after = _mutate_container(h, case, nodes, records, trace, ctx)
+    if after is not None:
+        same_nodes(after[0])
+        _assert_container_degrees(h, kind, after[0], list(after[1].values()), trace, after[2])
     ctx.nontrivial(len(sizes) > 1 and (repeated_sets or kind == "directed"))
 
 
@@ -515,20 +780,35 @@ node_lists = st.one_of(
 )
 
 
-def hypergraph_cases(tier):
-    return st.fixed_dictionaries({
-        "universe": S.universes(min_size=4, max_size=8,
-                                kinds=("ints", "strs", "range", "ints", "strs")),
-        "weighted": st.booleans(),
-        "ctor": st.booleans(),
-        "edges": st.lists(node_lists, min_size=1, max_size=8 if tier == "quick" else 10),
-        "removed": st.lists(node_lists, max_size=2),
-        "again": st.lists(st.integers(0, 30), max_size=2),
-        "isolated": st.lists(idx, max_size=2),
+KINDS = ("ints", "strs", "range", "ints", "strs", "floats")
+
+mutations = st.fixed_dictionaries({
+    "op": st.sampled_from(["toggle", "remove_edge", "remove_edge", "add_node", "remove_node"]),
+    "ns": node_lists, "pick": st.integers(0, 30), "k": st.integers(1, 3),
+    "as_order": st.booleans(),
+})
+
+
+@st.composite
+def hypergraph_cases(draw, tier):
+    # no hyperedge at all in about one case out of sixteen; then an isolated node is mandatory
+    lo = draw(st.sampled_from([0] + [1] * 15))
+    edges = draw(st.lists(node_lists, min_size=lo, max_size=0 if lo == 0 else
+                          (8 if tier == "quick" else 10)))
+    removed = draw(st.lists(node_lists, max_size=2))
+    return {
+        "universe": draw(S.universes(min_size=4, max_size=8, kinds=KINDS)),
+        "weighted": draw(st.booleans()),
+        "ctor": draw(st.booleans()),
+        "edges": edges,
+        "removed": removed,
+        "again": draw(st.lists(st.integers(0, 30), max_size=2)),
+        "isolated": draw(st.lists(idx, min_size=0 if edges or removed else 1, max_size=2)),
         # in one case out of three some hyperedges are (also) reached by shrinking e+{Z}
-        "shrunk": st.integers(0, 2).flatmap(
-            lambda i: st.just([]) if i else st.lists(st.integers(0, 30), min_size=1, max_size=3)),
-    })
+        "shrunk": draw(st.integers(0, 2).flatmap(
+            lambda i: st.just([]) if i else st.lists(st.integers(0, 30), min_size=1, max_size=3))),
+        "mutate": draw(mutations),
+    }
 
 
 def container_cases(tier):
@@ -539,11 +819,21 @@ def container_cases(tier):
     })
     return st.fixed_dictionaries({
         "kind": st.sampled_from(["directed", "temporal", "multiplex"]),
-        "universe": S.universes(min_size=3, max_size=8, kinds=("ints", "strs", "range")),
+        "universe": S.universes(min_size=3, max_size=8, kinds=("ints", "strs", "range", "floats")),
         "weighted": st.booleans(),
+        # Temporal / Multiplex: 0 = add_edge one by one, 1 = constructor with edge_list and
+        # time_list / edge_layer, 2 = constructor with embedded (time, edge) / (edge, layer) pairs
+        "ctor": st.sampled_from([0, 0, 1, 2]),
         "edges": st.lists(spec, min_size=1, max_size=8 if tier == "quick" else 10),
         "removed": st.lists(spec, max_size=2),
+        "shrunk": st.sampled_from([0, 1]).flatmap(
+            lambda i: st.lists(spec, min_size=1, max_size=2) if i else st.just([])),
+        "dropped": st.sampled_from([0, 0, 0, 1, 2]).flatmap(
+            lambda i: st.lists(idx, min_size=i, max_size=i)),
         "isolated": st.lists(idx, max_size=2),
+        "mutate": st.fixed_dictionaries({
+            "op": st.sampled_from(["remove_edge", "toggle"]), "spec": spec,
+            "pick": st.integers(0, 30), "as_order": st.booleans()}),
     })
 
 
